@@ -246,6 +246,34 @@ def enumerated(maxlen, part, parts):
             i += 1
 
 
+def wrapped_cases():
+    """Every printable ASCII character (alone and between letters) and every syntax-looking fragment, as a str argument under
+    every pair of wrappers (plain / flagged group, unnamed / named capture, optional, concatenation): group conversions rewrite the
+    *text* of their operand, and must never touch what a literal contributed to it."""
+    strings = []
+    for c in [chr(i) for i in range(32, 127)] + ['\n', '\t', '\u00e9']:
+        strings += [c, 'a' + c + 'b']
+    strings += list(dsl.FRAGMENTS)
+
+    def wrap(x, w, name):
+        if w == 'grp':
+            return ['grp', 'class', x, False]
+        if w == 'grp_ci':
+            return ['grp', 'method', x, True]
+        if w == 'cap':
+            return ['cap', 'method', x, None]
+        if w == 'capn':
+            return ['cap', 'class', x, name]
+        if w == 'opt':
+            return ['q', 'opt', 'class', x, 0, None, True]
+        return ['cat', 'class', [x, ['lit', 'z', True]]]
+    ws = ['grp', 'grp_ci', 'cap', 'capn', 'opt', 'cat']
+    for s in strings:
+        for w1 in ws:
+            for w2 in ws:
+                yield {'mode': 'position', 'tree': wrap(wrap(['lit', s, True], w1, 'n'), w2, 'm'), 'tseed': 1}
+
+
 def shards(tier):
     quick = tier == 'quick'
     out = []
@@ -264,6 +292,7 @@ def run_shard(spec, ctx):
         from pbt.props.c02 import manycaps_cases
         run_enumeration(ctx, (dict(c, mode='position') for c in manycaps_cases()), check_case,
                         'a digit-leading str after a two-digit backreference (10-13 groups)')
+        run_enumeration(ctx, wrapped_cases(), check_case, 'printable characters and syntax-looking fragments as str arguments under every pair of 6 wrappers')
         return
     if spec['mode'] == 'enumerate':
         run_enumeration(ctx, enumerated(spec['maxlen'], spec['part'], spec['parts']), check_case,
